@@ -415,6 +415,24 @@ def recorder : Visitor (List Event) where
 
 def events (words : Sl) : Out (List Event) := visit recorder words []
 
+/-- bit `i` of a 64-bit mask -/
+def maskBit (m i : Nat) : Bool := decide (i < 64) && m.testBit i
+
+/-- a user visitor that records every callback and DECLINES (returns `false` from) the i-th
+`file_info` callback iff bit i of `fmask` is set and the j-th `string_table` callback iff bit j of
+`tmask` is set (state: events, `file_info` callbacks so far, `string_table` callbacks so far; declined
+callbacks are counted and recorded).  Not part of the crate: the visitor of the `events_skip2`
+operation (harness/src/ops_version.rs `Recorder`), which exercises the two `continue`s of the nested
+loops of `visit`. -/
+def recorderSkip2 (fmask tmask : Nat) : Visitor (List Event × Nat × Nat) where
+  versionInfo s k f := ((s.1 ++ [.versionInfo k f], s.2), true)
+  fileInfo s k := ((s.1 ++ [.fileInfo k], s.2.1 + 1, s.2.2), !maskBit fmask s.2.1)
+  stringTable s k := ((s.1 ++ [.stringTable k], s.2.1, s.2.2 + 1), !maskBit tmask s.2.2)
+  string s k v := (s.1 ++ [.string k v], s.2)
+  var s k v := (s.1 ++ [.var k v], s.2)
+  enterScope s d := (s.1 ++ [.enter d], s.2)
+  exitScope s d := (s.1 ++ [.exit d], s.2)
+
 /-! ### Language -/
 
 structure Language where
